@@ -1,19 +1,39 @@
 """C02 — a ULT never runs on two streams at once; its context survives every switch.
-Assembly half: checks/c02_asm.py (context-switch routines; Lean Props/C02 over the generated
-instruction lists + native differential).  The protocol half is added by the lead."""
+Assembly half: checks/c02_asm.py (Lean Props/C02 over the instruction lists regenerated from the .S + native
+differential).  Protocol half: Model.Sched theorems (single runner, publish after save) + T1 skeletons of the context
+switch helpers + T3 campaign of the work-unit scenarios whose monitors check at every context-switch callback that it
+does not run on the switched-away unit's own stack and that no unit's function is active on two streams."""
 import json
 from checks import c02_asm
+from checks import sched_common as S
 
-ASSUMPTIONS = list(c02_asm.ASSUMPTIONS)
+ASSUMPTIONS = list(c02_asm.ASSUMPTIONS) + [
+    "protocol half: Model.Sched treats the entry of a context-switch callback as 'old context saved'; this is what fctx_save_before_call_* / fctx_call_on_saved_sp prove for the generated assembly and what the stack-pointer monitor checks on every explored run",
+    "callee-saved register canaries across real switches are checked natively per routine (assembly half), not inside the multi-stream scenarios",
+]
+
+EXTRA_T1 = [("thread.c", f) for f in [
+    "ABTI_ythread_context_switch", "ABTI_ythread_context_jump", "ABTI_ythread_context_switch_with_call",
+    "ABTI_ythread_context_jump_with_call", "ABTD_ythread_context_switch", "ABTD_ythread_context_jump",
+    "ABTD_ythread_context_switch_with_call", "ABTD_ythread_context_jump_with_call", "ABTD_ythread_context_start_and_switch",
+    "ABTD_ythread_context_start_and_jump", "ABTD_ythread_context_start_and_switch_with_call",
+    "ABTD_ythread_context_start_and_jump_with_call", "ABTD_ythread_context_init", "ABTD_ythread_context_is_started",
+    "ABTI_ythread_suspend_unlock", "ABTI_ythread_suspend_join", "ABTI_ythread_yield_to", "ABTI_ythread_thread_yield_to"]] + [
+    ("ythread.c", "ABTI_ythread_callback_suspend_unlock"), ("ythread.c", "ABTI_ythread_callback_yield_create_to"),
+    ("ythread.c", "ABTI_ythread_callback_yield_user_yield_to"), ("ythread.c", "ABTI_ythread_callback_yield_revive_to"),
+    ("arch/abtd_ythread.c", "ABTD_ythread_func_wrapper")]
 
 
 def run(res, tier, broken):
     c02_asm.run(res, tier, broken)
+    S.run_sched(res, tier, broken, "C02", EXTRA_T1)
 
 
 def replay(res, path):
     rep = json.load(open(path))
     if rep.get("correspondence", "").startswith("C02 asm") or "lines" in rep:
         return c02_asm.replay(res, rep)
+    if "seed" in rep and rep.get("scenario") == "sc_units":
+        return S.replay(res, path)
     print("replay file names a broken obligation without a failing input:", rep.get("broken"))
     return 1
